@@ -60,6 +60,11 @@ func (s *state) Persistent() types.PersistentState {
 func (s *state) getLog(index uint64) (*types.PooledBuffer, error) {
 	// Check the tail writer first
 	if s.tail != nil {
+		// A head truncation inside the tail segment only updates MinIndex in our
+		// segment metadata, the tail writer still holds the older entries.
+		if index < s.firstIndex() {
+			return nil, ErrNotFound
+		}
 		raw, err := s.tail.GetLog(index)
 		if err != nil && err != ErrNotFound {
 			// Return actual errors since they might mask the fact that index really
